@@ -106,6 +106,16 @@ def concretise(case, pres):
     S0 = cast(S0, ct.get('S0'))
     if ct.get('lab'):
         L = dict((k, cast(v, ct['lab'])) for k, v in L.items())
+    if pres.get('lab_share'):
+        # states with equal labellings share ONE container object, as with
+        # dict.fromkeys(S, {'p'}) or busy = {'p'}; L = {0: busy, 1: busy}
+        pool_ = {}
+        for k in list(L):
+            key = core.cjson(sorted(str(x) for x in L[k]))
+            if key in pool_:
+                L[k] = pool_[key]
+            else:
+                pool_[key] = L[k]
     tree = core.rename_atoms(case['f'], amap)
     F = None
     if case.get('F') is not None:
@@ -229,6 +239,11 @@ def gen_presentation(rng, case, cfg):
             'lab': rng.choice(['list', 'tuple', 'set', 'frozenset'])}
     if 'bijection' in kinds and rng.random() < 0.4:
         pres['fresh'] = True
+    if ('ctype' in kinds or 'order' in kinds) and rng.random() < 0.3:
+        # shared label containers only matter when they are sets (any other
+        # collection has to be converted by the constructor anyway)
+        pres['lab_share'] = True
+        pres['ctype'] = dict(pres.get('ctype') or {}, lab='set')
     if 'atoms' in kinds and rng.random() < 0.6:
         atoms = gen.ATOM_POOL[:cfg['natoms']]
         pres['amap'] = gen.rename_map(rng, atoms)
